@@ -56,16 +56,25 @@ pub struct Dyn(
     pub Box<dyn Fn() -> String>,
     /// `sample_iter(rng).take(n)`
     pub Box<dyn Fn(&mut ScriptRng, usize) -> Vec<Val>>,
+    /// the distribution value itself, for `clone_from`
+    pub std::rc::Rc<dyn std::any::Any>,
+    /// `let mut x = target.clone(); x.clone_from(self); x` when the target has the same concrete type (else `self.clone()`)
+    pub Box<dyn Fn(&dyn std::any::Any) -> Dyn>,
 );
 
 fn boxed<T: IntoVal + 'static, D: Distribution<T> + Clone + core::fmt::Debug + 'static>(d: D) -> Dyn {
     let rc = std::rc::Rc::new(d);
-    let (a, b, c, e) = (rc.clone(), rc.clone(), rc.clone(), rc);
+    let (a, b, c, e, g, h) = (rc.clone(), rc.clone(), rc.clone(), rc.clone(), rc.clone(), rc);
     Dyn(
         Box::new(move |rng: &mut ScriptRng| a.sample(rng).val()),
         Box::new(move || boxed::<T, D>((*b).clone())),
         Box::new(move || format!("{:?}", c)),
         Box::new(move |rng: &mut ScriptRng, n: usize| (&*e).sample_iter(rng).take(n).map(|v| v.val()).collect()),
+        g,
+        Box::new(move |target: &dyn std::any::Any| match target.downcast_ref::<D>() {
+            Some(t) => { let mut x: D = t.clone(); x.clone_from(&*h); boxed::<T, D>(x) }
+            None => boxed::<T, D>((*h).clone()),
+        }),
     )
 }
 
@@ -227,7 +236,7 @@ pub fn in_support(family: &str, ty: &str, ps: &[&str], v: Val) -> Result<(), Str
     }
 }
 
-fn splitmix(state: &mut u64) -> u64 {
+pub fn splitmix(state: &mut u64) -> u64 {
     *state = state.wrapping_add(0x9E3779B97F4A7C15);
     let mut z = *state;
     z = (z ^ (z >> 30)).wrapping_mul(0xBF58476D1CE4E5B9);
@@ -372,6 +381,7 @@ pub fn lat(toks: &[&str]) -> String {
 /// pure: interleaved histories over several objects and several seeded streams (property C14)
 /// `pure <seedhex> <fresh:0|1> <family:ty:params;...> <op> <op> ...`
 ///   S<k>:<r> sample object k from stream r | I<k>:<r>:<n> sample_iter take n | C<k> push clone of k | B<k> push rebuild of k
+///   F<k>:<j> push (clone of k).clone_from(j)
 ///   D<k> Debug of object k
 /// with fresh=1 every sample is drawn from an object newly constructed from the same parameters
 pub fn pure(toks: &[&str]) -> String {
@@ -407,6 +417,8 @@ pub fn pure(toks: &[&str]) -> String {
             }
             "C" => { let c = (objs[a[0]].1)(); objs.push(c); specs.push(specs[a[0]].clone()); "ok".to_string() }
             "B" => { let c = rebuild(&specs, a[0]); objs.push(c); specs.push(specs[a[0]].clone()); "ok".to_string() }
+            // F<k>:<j> : push `x` where `let mut x = objs[k].clone(); x.clone_from(&objs[j])` - a value that must behave as objs[j]
+            "F" => { let c = (objs[a[1]].5)(&*objs[a[0]].4); objs.push(c); specs.push(specs[a[1]].clone()); "ok".to_string() }
             "D" => (objs[a[0]].2)().replace(' ', ""),
             _ => "badop".to_string(),
         }));
